@@ -111,6 +111,10 @@ def _sym_harness(case):
             tb = traceback.extract_tb(e.__traceback__)
             inrepo = [fr for fr in tb if '/repo/' in fr.filename]
             inpv = tb[-1].filename.startswith(ROOT) if tb else False
+            if inpv and os.sep + 'props' + os.sep in tb[-1].filename and isinstance(e, (TypeError, ValueError, AttributeError, IndexError, KeyError)):
+                # raised by the harness itself while consuming what the code returned (e.g. unpacking None):
+                # an outcome of the code on this path; it only counts if the concrete replay raises it too
+                inpv = False
             where = ''
             if inrepo:
                 where = ' at %s:%d' % (os.path.basename(inrepo[-1].filename), inrepo[-1].lineno)
